@@ -29,3 +29,14 @@ pub fn all_parts(xlsx: &[u8]) -> Result<std::collections::BTreeMap<String, Vec<u
     }
     Ok(m)
 }
+
+/// write a package from parts (deflate)
+pub fn build(parts: &std::collections::BTreeMap<String, Vec<u8>>) -> Result<Vec<u8>, String> {
+    use std::io::Write;
+    let mut z = zip::ZipWriter::new(std::io::Cursor::new(Vec::new()));
+    for (name, body) in parts {
+        z.start_file(name.as_str(), zip::write::SimpleFileOptions::default().compression_method(zip::CompressionMethod::DEFLATE)).map_err(|e| format!("{}: {}", name, e))?;
+        z.write_all(body).map_err(|e| format!("{}: {}", name, e))?;
+    }
+    Ok(z.finish().map_err(|e| format!("zip finish: {}", e))?.into_inner())
+}
